@@ -68,6 +68,12 @@ def infer_redirection(url, recursive=True):
             elif potential_target.startswith("/"):
                 target = urljoin(url, potential_target)
 
+                # NOTE: joining a target found in the query always yields a
+                # shorter url. Else the hint was found in the netloc, was kept
+                # by the join and following it would never end.
+                if len(target) >= len(url):
+                    target = None
+
             # Idiotic youtube redirections
             elif "youtube.com/redirect?" in url:
                 target = "https://" + potential_target
